@@ -47,6 +47,20 @@ RULE = ("operations on the real internal/aes_ige code: doAES256IGEencrypt/decryp
         "returned and its buffers were compared, two garbage collections are forced and the finalizer goroutine is "
         "waited for (sentinel finalizers), then every caller-owned buffer, integer and result is compared again "
         "(caller-buffer-changed-after-gc). "
+        "Refused inputs of VALID length for DecryptMessageWithTempKeys (c05.tdecbad: a conformant message with one bit "
+        "flipped anywhere / in the last / in the first block, random ciphertext of the same length, a message made under "
+        "other nonces — every padding amount 0..15; c05.tdecraw of 2..256 blocks), and for half of the c05.tdec / c05.tenc "
+        "operations the call before (the decoy pass) is handed the complement of the good ciphertext — refused — with no "
+        "collection before the reported call. Batches: c05.seq | op | op … runs ordinary operations one after another on "
+        "one goroutine with nothing (no forced collection) in between — refused, intact, refused, intact … with every "
+        "kind of refusal and both kinds of intact message, under the same and under fresh nonces, plus random orders of "
+        "all operation kinds; c05.par <rounds> <iters> | op | op … runs 4..12 ordinary operations at the same time, one "
+        "goroutine each, all released from a spin barrier together, <iters> calls in a row, <rounds> times (Encrypt under "
+        "n auth keys, Encrypt+Decrypt under ONE auth key, Decrypt, the very same call n times, the key-exchange wrappers "
+        "with damaged answers among them, the cipher-level functions / cipher objects, everything mixed): per member the "
+        "result line of the ordinary operation — the first concurrent result that differs from the member's result alone, "
+        "else that — judged by the same oracle and answered by the Lean driver member by member; a panic in a goroutine "
+        "is that member's result; conc=same unless some member's concurrent result differed from its result alone. "
         "distinct = distinct operation lines; each is compared with the Lean register model (Lean AES-256/SHA-1 "
         "plugged in) and judged by the independent reference implementation")
 
